@@ -1160,7 +1160,7 @@ theorem checkHistory_sound {c : Config} (a : AllInv c) : checkHistory (toEvents 
     have := (a.inv.ch_le _ (mem_createdHandles hr h1)).2
     simp [h2, h3, h4, this]
   · -- no handle twice
-    rw [creates_handles c.hist (fun r hr h hres => hist_handle_is_create a hr hres)]
+    rw [nodupB_iff, creates_handles c.hist (fun r hr h hres => hist_handle_is_create a hr hres)]
     exact a.inv.ch_nodup
   · -- handle order
     intro ea hea hopa eb heb hopb
